@@ -59,6 +59,10 @@ class Sorts:
             fs = [(f"{name}__{f[0]}", PyList if f[2] == "*" else Py)
                   for f in self.classes[name]["fields"]]
             Py.declare(name, *fs)
+        # non-ast records of library models (inspect.Parameter: name, default or the EMPTY marker)
+        self.records = {"Param": [("name", "identifier", ""), ("default", "constant", "")]}
+        for name, fl in self.records.items():
+            Py.declare(name, *[(f"{name}__{f}", Py) for f, _, _ in fl])
         PyList.declare("nil")
         PyList.declare("cons", ("head", Py), ("tail", PyList))
         self.Py, self.PyList = z3.CreateDatatypes(Py, PyList)
@@ -74,9 +78,14 @@ class Sorts:
         for n in self.node_classes:
             for f, _, _ in self.fields[n]:
                 self.owners.setdefault(f, []).append(n)
+        for n, fl in self.records.items():
+            self.fields[n] = list(fl)
+            for f, _, _ in fl:
+                self.owners.setdefault(f, []).append(n)
         self._preds = {}
         self.all_py_constructors = ["PNone", "PBool", "PInt", "PStr", "PFloat", "PBytes", "PList",
-                                    "PTuple", "PDict", "PObj"] + self.node_classes
+                                    "PTuple", "PDict", "PObj"] + self.node_classes + \
+            list(self.records)
         self._mk_recfuns()
 
     # -- constructors / recognisers / accessors -------------------------------------
